@@ -294,3 +294,22 @@ Proof.
   unfold src_prefix, cfgp_vars, cost_q. unfold run_prefix, run_prefix_prog, qz in He. rewrite He.
   rewrite dec01_enc_x. reflexivity.
 Qed.
+
+(* ---- one execution of the loop body of the whole function (TieBody.body3) in this configuration ------------------ *)
+Definition run_loop_body_p (g : nat -> fx) (k : nat) (st : state) : outcome ctl :=
+  exec (ext01p g) body3 (set_var "hyp_idx" (VInt (Z.of_nat k)) st).
+
+Theorem prefix_loop_body_is_step_row :
+  forall (g : nat -> fx) (s : positive) (ci cd cs : Z) (R N H : nat) (rf hf : nat -> nat -> Z) (rl hl : nat -> nat) (excl : bool)
+         (vmult vnorm vwarn vpad vbf : val),
+  (forall n, (n < N)%nat -> (rl n <= R)%nat) ->
+  forall (st : state) (k : nat) (lf : nat -> nat -> Z) (pf : nat -> nat -> fx),
+  (1 <= k <= H)%nat -> (k < tsize H excl)%nat ->
+  body_pre_p s ci cd cs R N H rf hf rl hl excl vmult vnorm vwarn vpad vbf lf pf st ->
+  runs_to (body_pre_p s ci cd cs R N H rf hf rl hl excl vmult vnorm vwarn vpad vbf
+             (fun i n => nth i (C01.Model.step_row ci cd cs (colf R rf n) (colf H hf n) (hl n) excl k (colf (S R) lf n)) 0%Z)
+             (fun i n => if (i =? k)%nat
+                         then zf s (nth (rl n) (C01.Model.step_row ci cd cs (colf R rf n) (colf H hf n) (hl n) excl k (colf (S R) lf n)) 0%Z)
+                         else pf i n))
+          (run_loop_body_p g k st).
+Proof. intros. now apply body_run_p3. Qed.
